@@ -3,16 +3,17 @@ use crate::error::FluteError;
 use super::FecDecoder;
 
 pub struct NoCodeDecoder {
-    shards: Vec<Option<Vec<u8>>>,
-    nb_symbols: usize,
+    shards: std::collections::BTreeMap<u32, Vec<u8>>,
+    nb_source_symbols: usize,
     data: Option<Vec<u8>>,
 }
 
 impl NoCodeDecoder {
     pub fn new(nb_source_symbols: usize) -> NoCodeDecoder {
+        // Memory is allocated for the symbols that are received, not for the announced block length
         NoCodeDecoder {
-            shards: vec![None; nb_source_symbols],
-            nb_symbols: 0,
+            shards: std::collections::BTreeMap::new(),
+            nb_source_symbols,
             data: None,
         }
     }
@@ -20,21 +21,20 @@ impl NoCodeDecoder {
 
 impl FecDecoder for NoCodeDecoder {
     fn push_symbol(&mut self, encoding_symbol: &[u8], esi: u32) {
-        if self.shards.len() <= esi as usize {
-            log::error!("ESI {} > {}", esi, self.shards.len());
+        if self.nb_source_symbols <= esi as usize {
+            log::error!("ESI {} > {}", esi, self.nb_source_symbols);
             return;
         }
 
-        if self.shards[esi as usize].is_some() {
+        if self.shards.contains_key(&esi) {
             return;
         }
 
-        self.shards[esi as usize] = Some(encoding_symbol.to_vec());
-        self.nb_symbols += 1;
+        self.shards.insert(esi, encoding_symbol.to_vec());
     }
 
     fn can_decode(&self) -> bool {
-        self.nb_symbols == self.shards.len()
+        self.shards.len() == self.nb_source_symbols
     }
 
     fn decode(&mut self) -> bool {
@@ -47,8 +47,8 @@ impl FecDecoder for NoCodeDecoder {
         }
 
         let mut output = Vec::new();
-        for shard in &self.shards {
-            output.extend(shard.as_ref().unwrap());
+        for shard in self.shards.values() {
+            output.extend(shard);
         }
 
         self.data = Some(output);
